@@ -112,9 +112,7 @@ let case_h id cfg opss obs =
   let g k = L.assoc k c in
   let tracks = hexlist (g "t") in
   let fr0 = if g "m" = "1" then create_multi tracks else create_fragment (L.hd tracks) in
-  let tx = hexlist (g "tx") in
-  let trafs = L.mapi (fun i t -> { t with tf_extra = (try L.nth tx i with _ -> N0) }) fr0.fr_trafs in
-  let fr0 = { fr0 with fr_trafs = trafs; fr_pre = hexn (g "pre"); fr_moofx = hexn (g "mx"); fr_post = hexn (g "post") } in
+  let fr0 = with_extras fr0 (hexn (g "pre")) (hexn (g "mx")) (hexn (g "post")) (hexlist (g "tx")) in
   let ops = if opss = "-" then [] else L.map parse_op (split_on ';' opss) in
   let (classes, fro) = run_ops fr0 (L.map fst ops) in
   (* data written separately by the caller: that of the lazily added ops that succeeded *)
